@@ -67,6 +67,7 @@ properties! {
     "C16" => c16,
     "C17" => c17,
     "C18" => c18,
+    "C19" => c19,
     "C20" => c20,
 }
 
@@ -96,6 +97,10 @@ fn load_known(prop: &str) -> BTreeSet<String> {
 
 fn main() {
     let args: Vec<String> = std::env::args().collect();
+    if args.len() >= 6 && args[1] == "c19-reader" {
+        // helper process of C19: a database reader that is a process of its own
+        std::process::exit(c19::reader_main(&args[2..]));
+    }
     if args.len() < 3 {
         usage();
     }
